@@ -3,20 +3,41 @@
 Everything below runs the real geomdl in EXACT rational arithmetic (the tessellation code uses
 round()/int()/float() only on integer-valued quantities, which the exact number type supports), except
 the binary STL writer, whose float32 packing is compared with the float32 rounding of the exact values.
-Trimmed tessellation is not modelled in Lean; the `trim` stream is a labelled TEST of the "within one
-sampling cell" claim on axis-aligned rectangular trims (oracle only, no model line)."""
+Trimmed tessellation: `_tessellate.surface_trim_tessellate` and the cell loop of `make_triangle_mesh` that calls it are
+modelled literally (lean/NurbsVerif/Model/TrimMesh.lean).  The streams `trimcell` (single calls with free corners, flags
+and numbering) and `trimgrid` (tessellate.TrimTessellate, directly and through Surface.trims / Surface.tessellate; every
+call of the trimming function is recorded, then the mesh after fix_numbering) compare with the model in exact arithmetic
+(harness/trimops.py: polygonal trims in general position, trims through / next to grid vertices within and just outside
+the tolerances, trims inside one cell, on grid lines, reversed, several, self-intersecting, open, B-spline trims).  The
+older `trim` stream stays as a labelled oracle-only TEST on axis-aligned rectangular holes."""
 import random
 import struct, math
 from fractions import Fraction as F
 from core import Case, q, qs, qpts, fr, show_list, show_pts, load_known
 import gen as G
+import trimops as T
 
 PID = 'C15'
 STATS = G.STATS
 PARTIAL = [
-    "trimmed tessellation (surface_trim_tessellate, ray intersections, tolerances) is not modelled; the 'omitted region "
-    "matches the trimmed region to within one sampling cell' sub-claim is only TESTED by the exact oracle on axis-aligned "
-    "rectangular polygonal trims (stream 'trim'); spline trims are not checked",
+    "trimmed tessellation: surface_trim_tessellate and the cell loop of make_triangle_mesh that calls it ARE modelled literally "
+    "(Model/TrimMesh.lean trimCell / trimCells / makeTrimMesh; streams 'trimcell', 'trimgrid' compare every call - returned vertices (id, uv), "
+    "triangles (id, vertex ids), corner flags - and the mesh after fix_numbering with tessellate.TrimTessellate in exact arithmetic; polygonal "
+    "and B-spline trims, reversed trims included).  PROVED (C15.trim_*): a cell whose four corners are classified inside is omitted; a cell "
+    "away from the trims is emitted as exactly the two untrimmed triangles, and if all cells are away (e.g. no trims) the mesh IS the untrimmed "
+    "mesh; every kept triangle has its centre outside every non-reversed trim; vertex ids / new vertices within tol of a cell edge / counts; and "
+    "'the omitted region matches the trimmed region to within one sampling cell' for NON-reversed closed polyline trims in this form "
+    "(trim_cell_no_trim_enters_is_whole): a grid cell such that no point of any trim edge lies in the cell enlarged by tol^2 is omitted "
+    "if it lies in a trim and emitted exactly as the two untrimmed triangles if it lies in none - so the trimmed mesh differs from 'the untrimmed "
+    "triangles of the cells outside the trims' only in cells a trim polyline enters (via winding_constant_on_box_polygon_avoids: wn_poly is "
+    "constant on a box a closed polyline stays out of, any polyline shape; crossing_is_common_point).  NOT proved: "
+    "(a) nothing beyond the vertex / triangle shape theorems is proved about a cell "
+    "that a trim polyline DOES enter (a trim wholly inside one cell, or cutting one edge twice, leaves both triangles unless a centre falls inside; new vertices "
+    "on a shared edge are created once per cell, i.e. twice); (b) for reversed trims only the cell-level theorems hold (the flags kept on shared "
+    "corner vertices make the grid-level outcome depend on the order of the trims and cells; checked by correspondence only); (c) the rounded "
+    "square root inside ray.intersect is an input of the model (function sq, the harness passes the table of doubles): the theorems hold for "
+    "every sq, and nothing is claimed about the distance between the computed and the true intersection point; (d) wn_poly = geometric inside "
+    "for non-convex trims is C20's open item",
     "'the triangles tile the rectangle exactly once' is now a point-set theorem for the whole rectangle (C15.tiling_covers, "
     "tiling_inside, tiling_exactly_once, tiling_interiors_disjoint, tiling_unit_square: every point of the rectangle spanned by the grid "
     "lines - [0,1]^2 when the spacing divides size-1 - lies in a closed face, no face leaves it, a point interior to a face lies in no "
@@ -33,6 +54,8 @@ PARTIAL = [
 ASSUMPTIONS = [
     "surfaces have normalised knot vectors (domain [0,1]^2); un-normalised surfaces are finding F-01",
     "vertex_spacing < 5*10^6 (the model of the pinned size expression ignores the 1e-7 offset except for ties)",
+    "trimmed tessellation: inside ray.intersect the squared distance of the two evaluated points is not within relative 2^-50 of tol^2 "
+    "(the model compares squares, as for C20; verified per case by the oracle of the trimcell / trimgrid streams)",
 ]
 TRUSTED = ["OBJ/OFF/STL text parsing in harness/props/c15.py"]
 
@@ -220,6 +243,11 @@ def gen(rng, tier):
             d['Uu'] = [3 * x + 1 for x in d['Uu']]
             d.update(su=5, sv=4, s=1, unnorm=True)
             out.append(Case('pos-unnorm', '', d, tags=('F-01',)))
+    # 9. trimmed tessellation against the model (Model/TrimMesh.lean): single calls of surface_trim_tessellate with free
+    #    corners / flags / numbering, and whole grids through tessellate.TrimTessellate (own generator, see harness/trimops.py)
+    rt = random.Random(rng.randint(0, 2 ** 30))
+    out += T.gen_cell(rt, quick, 60 if quick else 600)
+    out += T.gen_grid(rt, quick, 40 if quick else 400)
     return out
 
 
@@ -435,6 +463,8 @@ def impl(c):
         from geomdl import linalg, elements
         vs = [elements.Vertex(*[q(x) for x in p], id=i) for i, p in enumerate(d['pts'])]
         return show_list(linalg.triangle_normal(elements.Triangle(*vs)))
+    if k in ('trimcell', 'trimgrid'):
+        return T.impl(c)
     raise ValueError(k)
 
 
@@ -740,6 +770,8 @@ def oracle(c):
         return _trim_test(d)
     if k == 'float':
         return _float_companion(d)
+    if k in ('trimcell', 'trimgrid'):
+        return T.oracle(c)
     return None
 
 
